@@ -158,4 +158,61 @@ def r3_clock_and_retention(ctx):
     C02.r6_clock_algebra(ctx)
 
 
-RULES = [r1_linear_in_time_step, r2_additive_deposit, r3_clock_and_retention]
+def _memoised(ctx, f) -> bool:
+    for dn in f.node.decorator_list:
+        head = dn.func if isinstance(dn, ast.Call) else dn
+        ext = ctx.repo.external_name(f.module, head) or norm(head)
+        if ext.split(".")[-1] in ("lru_cache", "cache", "cached", "memoize"):
+            return True
+    return False
+
+
+def r4_no_inplace_on_memoised(ctx):
+    """A model must not scale, in place, an array handed out by a memoised function: the cached array is shared between calls, so every readout (and every later run in the process) would compound the time-step factor. Memoised functions that mark their result read-only are exempt (an in-place write fails loudly)."""
+    from sa.index import FuncInfo
+
+    memo = {}
+    for f in ctx.repo.all_functions():
+        if _memoised(ctx, f):
+            ro = "setflags(write=False)" in norm(f.node)
+            memo[f.qual] = ro
+    # one level of wrappers returning the memoised value
+    for f in ctx.repo.all_functions():
+        rets = [r for r in returns_of(f) if r.value is not None and isinstance(r.value, ast.Call)]
+        for r in rets:
+            for cal in ctx.R.resolve_call(f, r.value):
+                if isinstance(cal, FuncInfo) and cal.qual in memo and f.qual not in memo:
+                    memo[f.qual] = memo[cal.qual]
+    n = 0
+    for f in sorted(ctx.repo.all_functions(), key=lambda x: x.qual):
+        if not f.module.name.startswith("pyxel.models"):
+            continue
+        aliases = {}
+        for st in walk_ordered(f.node):
+            if isinstance(st, (ast.Assign, ast.AnnAssign)) and isinstance(getattr(st, "value", None), ast.Call):
+                t = st.targets[0] if isinstance(st, ast.Assign) else st.target
+                if isinstance(t, ast.Name):
+                    for cal in ctx.R.resolve_call(f, st.value):
+                        if isinstance(cal, FuncInfo) and cal.qual in memo:
+                            aliases[t.id] = cal
+            # plain aliasing  b = a
+            if isinstance(st, ast.Assign) and isinstance(st.value, ast.Name) and st.value.id in aliases and isinstance(st.targets[0], ast.Name):
+                aliases[st.targets[0].id] = aliases[st.value.id]
+        for name, cal in aliases.items():
+            n += 1
+            muts = []
+            for st in walk_ordered(f.node):
+                if isinstance(st, ast.AugAssign) and ((isinstance(st.target, ast.Name) and st.target.id == name) or (isinstance(st.target, ast.Subscript) and dotted(st.target.value) == name)):
+                    muts.append(st)
+                if isinstance(st, ast.Assign) and isinstance(st.targets[0], ast.Subscript) and dotted(st.targets[0].value) == name:
+                    muts.append(st)
+                if isinstance(st, ast.Expr) and isinstance(st.value, ast.Call):
+                    o = kw(st.value, "out")
+                    if o is not None and dotted(o) == name:
+                        muts.append(st)
+            ok = not muts or memo[cal.qual]
+            ctx.check(ok, f"{f.qual}#{name}<-{cal.name}", f"result of memoised {cal.name} is not modified in place" + (" (it is read-only)" if memo[cal.qual] and muts else "") if ok else f"`{norm(muts[0])[:60]}` modifies, in place, the array cached by {cal.name}: the factor compounds over readouts and runs", where=f, node=muts[0] if muts else f.node)
+    ctx.note(f"memoised value producers: {sorted(memo)}; {n} use sites in models")
+
+
+RULES = [r4_no_inplace_on_memoised, r1_linear_in_time_step, r2_additive_deposit, r3_clock_and_retention]
